@@ -32,6 +32,30 @@ def bare_in_code(drv, word, target):
     return None
 
 
+def bare_table(drv, words, target):
+    """one compile for the whole universe: {word: True (bare) | False (quoted)}; words the compiler rejects fall back
+    to individual probes"""
+    out = {}
+    words = list(words)
+    prog = "from t | select {" + ", ".join(f"t.`{w}`" for w in words) + "}"
+    r = drv.compile(prog, target)
+    if r.get("ok"):
+        m = re.match(r"^SELECT\s+(.*?)\s+FROM\s+t$", r["sql"], re.S)
+        items = [x.strip() for x in m.group(1).split(",")] if m else []
+        if len(items) == len(words):
+            for w, it in zip(words, items):
+                if it == w:
+                    out[w] = True
+                elif len(it) == len(w) + 2 and it[1:-1] == w and it[0] in '"`[':
+                    out[w] = False
+                else:
+                    out[w] = bare_in_code(drv, w, target)
+            return out
+    for w in words:
+        out[w] = bare_in_code(drv, w, target)
+    return out
+
+
 def replay_ident(drv, word, target="sql.sqlite"):
     """compile a select of the column named `word` and run it on a SQLite table having exactly that column"""
     r = drv.compile(f"from t | select {{t.`{word}`}}", target)
@@ -77,7 +101,8 @@ def run(R, tier, seed, drv_path):
     refused = sorted(w for w in universe if sqlite_refuses(w))
     results = {}
     for target in ("sql.sqlite", "sql.generic"):
-        quoted = sorted(w for w in universe if bare_in_code(drv, w, target) is False)
+        table = bare_table(drv, universe, target)
+        quoted = sorted(w for w in universe if table[w] is False)
         bare = code_re
         if quoted:
             bare = z3.Intersect(bare, z3.Complement(lits(quoted)))
